@@ -27,6 +27,9 @@ type PackagesFacade struct {
 	packagesCache  map[string]*packages.Package // pkgPath → *packages.Package
 	packageToFiles map[string][]*ast.File       // pkgPath → []*ast.File
 
+	// Absolute paths of the files matched by the configured globs. Packages loaded on demand register all
+	// of their files too; those are needed for type resolution but are not analysis roots
+	globbedFiles map[string]struct{}
 }
 
 func NewPackagesFacade(config PackageFacadeConfig) (PackagesFacade, error) {
@@ -51,7 +54,12 @@ func (facade *PackagesFacade) FSet() *token.FileSet {
 
 func (facade *PackagesFacade) GetAllSourceFiles() []*ast.File {
 	result := make([]*ast.File, 0, len(facade.files))
-	for _, file := range facade.files {
+	for absPath, file := range facade.files {
+		// Only the files the globs asked for are sources to analyze. Without this, files of packages that were
+		// merely loaded on demand during a pass would be walked by the next pass over the same facade
+		if _, isGlobbed := facade.globbedFiles[absPath]; !isGlobbed {
+			continue
+		}
 		result = append(result, file)
 	}
 	result = verifhook.Permute("source-files", result, func(f *ast.File) string { return gast.GetAstFileName(facade.fileSet, f) })
@@ -110,6 +118,8 @@ func (facade *PackagesFacade) initWithGlobs() error {
 			pkgPathsToLoad.Add(filepath.Dir(pkgPath))
 		}
 	}
+
+	facade.globbedFiles = matchedAbsPaths
 
 	err := facade.loadPackagesFiltered(pkgPathsToLoad.ToSlice(), matchedAbsPaths)
 	if err != nil {
